@@ -84,7 +84,14 @@ class Batch:
 
     def flush(self):
         if self.cmds and self.ctx.build.model_ok:
-            for r, cb in zip(self.ctx.model.run(self.cmds), self.cbs):
+            import common
+            saved = common.enc
+            common.enc = G.enc_iter           # same text, no recursion (deeply nested trees)
+            try:
+                res = self.ctx.model.run(self.cmds)
+            finally:
+                common.enc = saved
+            for r, cb in zip(res, self.cbs):
                 cb(r)
         self.cmds, self.cbs = [], []
 
